@@ -40,16 +40,16 @@ header text and reference list).  Read modes: seq:<how1>><how2>:<AB|BA> - the fi
 the second one with how2 in the same process (how = read | one read_chunk | all read_chunks); t = the table of the
 file read second, u = that of the file read first (so [swap] observes the first table after the second read);
 inter:<AB|BA> - two readers open, chunks read alternately; whole and chunk:<n> as above.  The same lock-step
-lazy/eager oracle; the header context (t.get_context("header")) is an op of its own and one more observation of
-the full observation.  Programs: every program of at most one op (two ops for four formats, thorough) over
-{header, write, get, tolist, t[slice], t[mask], t[int list], t[:], swap, concatenate tu/ut/tt, replace, t.f = v}.
+lazy/eager oracle over the operations of the statement; the header is observed through the WRITTEN BYTES only
+(get_context is not an operation of the property).  Programs: every program of at most one op (two ops for four
+formats, thorough) over {write, get, tolist, t[slice], t[mask], t[int list], t[:], swap, concatenate tu/ut/tt,
+replace, t.f = v}, followed by the full observation.
 Signatures of this family carry the plain format name; a divergence that the plain file pair (read as a whole)
 does not show for the same program gets the marker ":header-files-only" after the program shape.  Where the
-source file of the table is known (only unary ops since it was read) the signature says whether the LAZY table
-shows / writes a header that is not the header of its own file (reference: the leading lines / BAM header this file
-wrote): ...:lazy-header-not-of-its-file (header observation, written header lines, and - refining the divergence
-"only the eager write fails" - the header the lazy write emitted).  <format>:header-context:eager-table-has-none =
-the eager table has no header context at all (KeyError) where the lazy one has: one signature whatever the program.
+source file of the table is known (only unary ops since it was read) the signature of a difference in written bytes
+says whether the LAZY table writes a header that is not the header of its own file (reference: the leading lines /
+BAM header this file wrote): ...:lazy-header-not-of-its-file (written header lines, and - refining the divergence
+"only the eager write fails" - the header the lazy write emitted).
 
 Signatures.  A failing program is delta-minimised (ops deleted while the same divergence remains; each remaining op
 named by its most canonical variant that keeps the divergence) and the signature is
@@ -481,7 +481,7 @@ class Env:
     def __init__(self, tmp, fmt, mode):
         self.tmp, self.fmt, self.mode = tmp, fmt, mode
         self.buffer_type = _buffer(base_of(fmt))
-        self.hdr = is_hdr(fmt)        # header-bearing file pair: the header context is observed as well
+        self.hdr = is_hdr(fmt)        # header-bearing file pair: written headers are checked against the own file's
         self.signame = plain(fmt)     # the format name of the signatures
         self.paths = {}
         self.nwrite = 0
@@ -619,13 +619,6 @@ def strip_comment_lines(fmt, text):
     return "".join(l for l in text.splitlines(True) if not l.startswith(c))
 
 
-def norm_header(h):
-    """the header context as a plain value (the BAM header object by its bytes)"""
-    if h is not None and not isinstance(h, (str, bytes, list, tuple)) and callable(getattr(h, "bytes", None)):
-        return {"header-bytes": h.bytes().decode("latin1")}
-    return norm(h)
-
-
 def prepare(op, fields, n_eager):
     """harness part of an op, outside the guarded call: the index object / the new column.  Raises Skip when the op
     is not applicable in the current state (t[i] of an empty table, replace of a column that is not a plain array)"""
@@ -669,8 +662,6 @@ def apply_op(env, op, regs, arg, tag):
         return [norm(e) for e in t]
     if kind == "write":
         return env.write(t, tag)
-    if kind == "header":     # the header context of the table (what the writers put before the records)
-        return norm_header(t.get_context("header"))
     if kind == "item":
         return norm(t[arg])
     if kind == "idx":
@@ -727,8 +718,8 @@ NOT_OWN = "lazy-header-not-of-its-file"
 
 def _not_own(env, src, lazy_header, eager_header):
     """header-bearing file pairs, table whose source file is known (only unary ops since it was read): the lazy
-    table shows / writes a header that is not the header of its own file although the eager one does, or it shows
-    the header of the OTHER file of the session"""
+    table writes a header that is not the header of its own file although the eager one does, or it writes the
+    header of the OTHER file of the session"""
     if env is None or not env.hdr or src is None or not isinstance(lazy_header, str):
         return False
     own = env.own_header(src)
@@ -753,8 +744,6 @@ def _compare(step, where, lo, eo, bytes_like=False, fmt=None, env=None, src=None
         return None, Divergence(step, where, "only-eager-fails:" + eo[1], "eager raised %s(%s); lazy gave %r" % (eo[1], eo[2], _short(lo[1])))
     if lo[1] != eo[1]:
         kind = "values-differ:" + diff_class(lo[1], eo[1])
-        if where == "header" and _not_own(env, src, lo[1], eo[1]):
-            kind = "values-differ:" + NOT_OWN
         if bytes_like:
             kind = "bytes-differ:" + diff_class(lo[1], eo[1])
             lb, eb = strip_comment_lines(fmt, lo[1]), strip_comment_lines(fmt, eo[1])
@@ -859,9 +848,8 @@ def _track(op, srcs):
 
 
 def _observe(env, lt, et, step, src=None):
-    """the full observation (len, every field in declaration order, tolist, written bytes; of the header-bearing
-    file pairs the header context as well) of one table in both modes -> (n rows of the eager table, [(where, op,
-    Divergence or None)])"""
+    """the full observation (len, every field in declaration order, tolist, written bytes) of one table in both
+    modes -> (n rows of the eager table, [(where, op, Divergence or None)])"""
     try:
         names = [f.name for f in dataclasses.fields(et)]
     except Exception:
@@ -871,8 +859,6 @@ def _observe(env, lt, et, step, src=None):
     except Exception:
         n = 0
     obs = [("len", ["len"])] + [("get", ["get", f]) for f in names] + [("tolist", ["tolist"]), ("write", ["write"])]
-    if env.hdr:
-        obs.append(("header", ["header"]))
     out = []
     for where, op in obs:
         lo = _outcome(lambda: apply_op(env, op, [lt, None], None, "lazy"))
@@ -1098,9 +1084,6 @@ def collapsed_signature(env, div):
     fmt = env.signame
     if div.kind == HEADER_ONLY:
         return "%s:%swrite:%s:%s" % (fmt, RETAINED if ret else "", HEADER_ONLY, getattr(div, "header", "?"))
-    if div.where.endswith("header") and div.kind == "only-eager-fails:KeyError" and "KeyError('header')" in div.detail:
-        # the eager table has no header context at all (never had one, or lost it when it was derived)
-        return "%s:%sheader-context:eager-table-has-none" % (fmt, RETAINED if ret else "")
     if div.empty:
         return "%s:empty-table=>%s:%s" % (fmt, div.where, div.kind)
     if "only 0-dimensional arrays can be converted" in div.detail:
@@ -1163,7 +1146,7 @@ def alphabet(fields, level):
     return out
 
 
-PURE = ("len", "tolist", "write", "item", "str", "get", "iter", "header")
+PURE = ("len", "tolist", "write", "item", "str", "get", "iter")
 
 
 def pair_programs(mini):
@@ -1513,7 +1496,7 @@ def run_retained(col, r, tier):
 # ----------------------------------------------------------------------------------------------------------------
 # second-file family: two files of one format with different headers, read one after the other in this process
 # ----------------------------------------------------------------------------------------------------------------
-# The lazy class carries the header of the file (the header context of the table, the header bytes of a write);
+# The lazy class carries the header of the file (the header bytes of a write);
 # whatever is remembered per process, per buffer type or per reader must not leak from one file into the table of
 # another.  Read modes (Env._read_seq): "seq:<how1>><how2>:<order>" - the first file of the order (AB: file A then
 # file B, BA: the other way round) is read with how1, then the second one with how2 (read = whole read, chunk =
@@ -1521,8 +1504,8 @@ def run_retained(col, r, tier):
 # table of the file read first (so [swap] observes the first table after the second read).  "inter:<order>" - both
 # readers open, a chunk of the first file, a chunk of the other file, then the next chunk of the first file = t.
 # "whole" and "chunk:<n>" as for the plain files (t = file A, u = file B read after it; first and last chunk of the
-# one file AB).  The same lock-step oracle; the header context (get_context("header")) is one more observation of
-# the full observation and an op of its own.
+# one file AB).  The same lock-step oracle over the operations of the statement: the header is observed through the
+# written bytes (get_context is not an operation of the property).
 
 HOWS = ("read", "chunk", "chunks")
 SEQ_MODES = ["seq:%s>%s:%s" % (a, b, o) for o in ("AB", "BA") for a in HOWS for b in HOWS] + ["inter:AB", "inter:BA"]
@@ -1535,7 +1518,7 @@ SECOND_FAMILIES = [f + HDR for f in ("bed", "bdg", "wig", "gfa", "pairs", "vcf0"
 def second_ops(fields):
     names = [f for f, _ in fields]
     r = replaceable(fields)
-    ops = [["header"], ["write"], ["get", names[0]], ["tolist"]] + \
+    ops = [["write"], ["get", names[0]], ["tolist"]] + \
           [["idx", x] for x in ("s_tail", "m_alt", "i_rev", "s_all")] + \
           [["swap"], ["cat", "tu"], ["cat", "ut"], ["cat", "tt"]]
     if r:
@@ -1544,10 +1527,10 @@ def second_ops(fields):
 
 
 def second_programs(fields, level):
-    """mini: the table as read (full observation), header, t[1:], the first table after the second read;
+    """mini: the table as read (full observation), write first, t[1:], the first table after the second read;
     one: every program of at most one op of second_ops; two: every program of exactly two"""
     if level == "mini":
-        return [[], [["header"]], [["idx", "s_tail"]], [["swap"]]]
+        return [[], [["write"]], [["idx", "s_tail"]], [["swap"]]]
     ops = second_ops(fields)
     if level == "one":
         return [[]] + [[o] for o in ops]
@@ -1574,9 +1557,9 @@ def run_second(col, r, tier):
             "headers": "file A and file B of a format start with different header / comment lines (another text, "
                        "another number of lines; BAM: another text and reference list), file AB has those of A",
             "modes": "seq:<how1>><how2>:<AB|BA> (how = read | chunk | chunks), inter:<AB|BA>, whole, chunk:<n>",
-            "programs": "mini: 4 programs (as read, header, t[1:], swap); one: at most one op of 12-14 (header, "
+            "programs": "mini: 4 programs (as read, write, t[1:], swap); one: at most one op of 11-13 ("
                         "write, get, tolist, 4 index kinds, swap, 3 concatenations, replace, assignment); two: every "
-                        "pair of them; always followed by the full observation incl. the header context"}
+                        "pair of them; always followed by the full observation (len, fields, tolist, written bytes)"}
     t0 = time.time()
     stop = False
     for level, fmt, mode in tasks:
@@ -1619,8 +1602,8 @@ def run(tier="quick", seed=0):
                     "table gets the full observation after the last op.  Second file: pairs of files of one format "
                     "with different header / comment lines read one after the other in this process (read, one "
                     "read_chunk, all read_chunks, two open readers interleaved; both orders), programs of at most "
-                    "one op (two, thorough) on the table read second / the table read first, the header context "
-                    "observed as well.  distinct = distinct (format, read mode, "
+                    "one op (two, thorough) on the table read second / the table read first, the header observed "
+                    "through the written bytes.  distinct = distinct (format, read mode, "
                     "program); non-trivial = program of length >= 1",
                     budget_s=(66 if tier == "quick" else 585))
     import logging
